@@ -178,6 +178,8 @@ pub fn spend_case(sender: &'static str, receiver: &'static str, channel: Option<
                 "proto" => who.u3.clone(),
                 "native" => who.n1.clone(),
                 "other" => addr::addr("cosmos", 9, 20),
+                "multi" => format!("osm\u{e9}{}", &who.u3[4..]),
+                "multi2" => format!("celesti\u{1F600}{}", &who.n1[9..]),
                 _ => "garbage".to_string(),
             };
             let coin = Coin { denom: B.to_string(), amount: amt };
@@ -379,7 +381,7 @@ pub fn cases(tier: &str) -> Vec<Case> {
         }
     }
     for s in ["admin", "trader", "other"] {
-        for r in ["proto", "native", "other", "garbage"] {
+        for r in ["proto", "native", "other", "garbage", "multi", "multi2"] {
             v.push(spend_case(s, r, None));
             v.push(spend_case(s, r, Some("channel-1")));
         }
